@@ -54,13 +54,27 @@ def sim_plan_st(draw, tier, ctx=None, want_absent_arms=False, max_bandits=3):
             min_train = max(min_train, c["np"][1].get("n_clusters", 2))
         thompson = thompson or c["lp"][0] == "ThompsonSampling"
         popularity = popularity or c["lp"][0] == "Popularity"
-    fam = "B" if thompson else ("Epos" if popularity else draw(st.sampled_from(["E", "Eint", "T"])))
+    # "D": one-decimal rewards, whose sums depend on the order of summation in the last bit
+    fam = "B" if thompson else (draw(st.sampled_from(["Epos", "D"])) if popularity else
+                                draw(st.sampled_from(["E", "Eint", "T", "D", "D"])))
     pool = arms
     if want_absent_arms and len(arms) > 2 and draw(st.booleans()):
         pool = arms[:-1]            # an arm that never occurs in the data
-    decisions = draw(st.lists(st.sampled_from(pool), min_size=n, max_size=n))
-    rewards = draw(st.lists(gen.reward_st(fam), min_size=n, max_size=n))
-    contexts = draw(gen.contexts_st(n, d, draw(st.sampled_from(["int", "small"])))) if contextual_data else None
+    big = draw(st.integers(0, 13)) == 0
+    if big:
+        # now and then a data set of a few hundred rows (a drawn block, tiled): more than 100 test rows per batch
+        blk = draw(st.integers(9, 13))
+        bd = draw(st.lists(st.sampled_from(pool), min_size=blk, max_size=blk))
+        br = draw(st.lists(gen.reward_st(fam), min_size=blk, max_size=blk))
+        bc = draw(gen.contexts_st(blk, d, "int")) if contextual_data else None
+        t = draw(st.sampled_from([18, 24, 30]))
+        decisions, rewards = bd * t, br * t
+        contexts = [list(r) for _ in range(t) for r in bc] if bc is not None else None
+        n = len(decisions)
+    else:
+        decisions = draw(st.lists(st.sampled_from(pool), min_size=n, max_size=n))
+        rewards = draw(st.lists(gen.reward_st(fam), min_size=n, max_size=n))
+        contexts = draw(gen.contexts_st(n, d, draw(st.sampled_from(["int", "small"])))) if contextual_data else None
     if contexts is not None:
         # Radius bandits: two times in three the radius is a realised distance between two data rows under the
         # bandit's metric (rows exactly on the boundary, neighbourhoods neither empty nor everything)
@@ -93,8 +107,15 @@ def sim_plan_st(draw, tier, ctx=None, want_absent_arms=False, max_bandits=3):
             test_size = draw(st.sampled_from(ok))
             n_test = min(n - int(n * (1 - test_size)), math.ceil(test_size * n))
             exact_count = False
+    if big:
+        test_size = draw(st.sampled_from([0.5, 0.6, 0.55]))
+        import math as _m
+        n_test = min(n - int(n * (1 - test_size)), _m.ceil(test_size * n))
+        exact_count = False
     online = draw(st.booleans())
     batch_size = draw(st.integers(1, n_test)) if online else 0
+    if big and online:
+        batch_size = draw(st.sampled_from([x for x in (101, 120, 150, 200, 64, 100) if x <= n_test]))
     return {"arms": arms, "bandits": bandits, "decisions": decisions, "rewards": rewards, "contexts": contexts,
             "test_size": test_size, "n_test": n_test, "exact_count": exact_count, "is_ordered": draw(st.booleans()), "batch_size": batch_size,
             "is_quick": draw(st.booleans()), "seed": draw(st.integers(0, 2 ** 16)),
